@@ -13,7 +13,7 @@ use super::c01::put_prefix;
 use super::c03::neighbour;
 
 // decoder side.  params: 0 encoding, 1/2 symbolic byte count, 3 sink, 4 replacement, 5/6 first-byte shard, 7 prefix,
-//                        8 BOM mode, 9 capacity, 11 number of cuts (0..2), 12 empty final call allowed
+//                        8 BOM mode, 9 capacity, 11 number of cuts (0..2), 12 empty final call allowed, 13 flags, 14 &mut str pre-fill phase + 1
 harness!(se_h_c08_dec, c08_dec, {
     let e = param(0);
     let sink = param(3);
@@ -33,6 +33,10 @@ harness!(se_h_c08_dec, c08_dec, {
     let mut d = new_decoder(e, param(8));
     let mut run = Run::new(param(9));
     run.max_calls = 4 * len + 16;
+    // flags (C05 / C06 reuse this harness): 1 = written units well-formed per call, 2 = String sink starts with content
+    run.wf_check = param(13) & 1 != 0;
+    run.keep_prefix = param(13) & 2 != 0;
+    run.str_fill = param(14);
     if ncuts == 0 { push(&mut d, sink, repl, &src[..len], last_in_data, &mut run); }
     else {
         push(&mut d, sink, repl, &src[..c1], false, &mut run);
@@ -77,6 +81,7 @@ harness!(se_h_c08_enc, c08_enc, {
     let mut en = enc(e).new_encoder();
     let mut run = Run::new(param(12));
     run.max_calls = 4 * units + 16;
+    run.keep_prefix = param(13) & 2 != 0;
     let kind = param(8);
     let bounds = [0usize, c1, c2, nch];
     let mut k = 0;
